@@ -17,10 +17,11 @@ pub type FA = ArrFile<NA>;
 /// whose bit is set in `symmask` get arbitrary (symbolic) contents.
 pub fn image_for(fat: &[u32; NS], symmask: u32) -> [u8; NA] {
     let mut data = [0u8; NA];
+    let ff = [0xffu8; SEC];
+    data[soff(0)..soff(0) + SEC].copy_from_slice(&ff);
     let mut c = 0;
-    while c < SEC / 4 {
-        let v = if c < NS { fat[c] } else { FREE };
-        put32(&mut data, soff(0) + 4 * c, v);
+    while c < NS {
+        put32(&mut data, soff(0) + 4 * c, fat[c]);
         c += 1;
     }
     let mut s = 1;
